@@ -511,6 +511,29 @@ def p_singleton_by_value(b):
     return out
 
 
+def p_singleton_by_value_added(b):
+    """A fresh never-clone singleton (Sbv) plus ONE by-value consumer of every component kind — including the derived ones
+    (a wrapping middleware, a specialised generic constructor), which are not the user-registered component itself."""
+    out = []
+    for la in range(0, b.depth + 1):
+        for lb in range(la, b.depth + 1):
+            node = b.chain[lb]
+            n = len(node_ops(b.ops, node))
+            ci = b.continuing_index(lb)
+            base = [("ins", b.chain[la], 0, C("C_SBV", "singleton"))]
+            variants = {
+                "handler": [("ins", node, n, R("HX_SBV_V"))],
+                "pre": [("ins", node, ci, {"k": "pre", "c": "PREX_SBV_V"})],
+                "wrap": [("ins", node, ci, {"k": "wrap", "c": "WRAPX_SBV_V"})],
+                "post": [("ins", node, ci, {"k": "post", "c": "POSTX_SBV_V"})],
+                "via_ctor": [("ins", node, 0, C("C_VIA_SBV_V")), ("ins", node, n, R("HX_VIA_SBVV_R"))],
+                "via_generic_ctor": [("ins", node, 0, C("C_GEN_SBV_V")), ("ins", node, 0, C("C_SBVAUX")), ("ins", node, n, R("HX_GEN_SBV_R"))],
+            }
+            for kind, edits in variants.items():
+                out.append(plant("singleton_by_value", f"added:{kind}@L{lb}:ctor@L{la}", base + edits))
+    return out
+
+
 def p_mut_ref(b):
     out = []
     for ty, (op, owner) in b.types.items():
@@ -797,7 +820,8 @@ def p_via_shadow_outer_consumer(b):
     return out
 
 
-PLANTERS = [p_via_shadow_outer_consumer, p_missing, p_cycle, p_singleton_dep, p_singleton_two_scopes, p_not_send_sync, p_singleton_by_value, p_mut_ref,
+PLANTERS = [p_via_shadow_outer_consumer, p_missing, p_cycle, p_singleton_dep, p_singleton_two_scopes, p_not_send_sync, p_singleton_by_value,
+            p_singleton_by_value_added, p_mut_ref,
             p_mut_ctor_input, p_cin_not_clone, p_observer_fallible, p_route_conflict, p_path_param, p_via_shadow]
 
 
